@@ -145,6 +145,12 @@ func rulesC01(c *Ctx) {
 						c.Ok(key, f, call, "retire is dominated by delete(outgoingCalls, id) in the same locked closure")
 						continue
 					}
+					// ... or the retire stands under a predicate that answers true only after it has removed that very call's entry
+					if rsel, isSel := ast.Unparen(call.Fun).(*ast.SelectorExpr); isSel && c.c01GuardRemoves(f, fg.GuardsAt(v), f.ObjOf(rsel.X)) {
+						roles["delete+retire"]++
+						c.Ok(key, f, call, "retire is guarded by a predicate of the state that is true only after delete(outgoingCalls, id of this call), in the same locked closure")
+						continue
+					}
 					if rs, ok := f.Enclosing(call, func(n ast.Node) bool { _, ok := n.(*ast.RangeStmt); return ok }).(*ast.RangeStmt); ok && f.IsField(rs.X, outgoing) {
 						// after the loop every path to exit clears the map
 						rv := fg.VertexOf(rs.X)
@@ -172,6 +178,18 @@ func rulesC01(c *Ctx) {
 				case f.Obj != nil && f.Obj.Name() == "Call" && f.Parent == nil:
 					roles["pre-registration"]++
 					c.checkCallRetireSite(f, call, key)
+				case f.Lit != nil && c.c01BoundToCallLocal(f):
+					// a literal bound to a local of Call that is only ever called in Call's own body (`fail := func(err) …`): the
+					// retire happens where the local is called, and each of those places answers as a retire written there would
+					sites, _ := c.c01BoundClosureSites(f)
+					for i, st := range sites {
+						roles["pre-registration"]++
+						k := key
+						if i > 0 {
+							k += "#" + itoa(i)
+						}
+						c.checkCallRetireSite(st.In, st.Call, k)
+					}
 				default:
 					c.Fail(key, f, call, "retire called outside the state lock and outside Call's pre-registration paths")
 				}
@@ -317,7 +335,7 @@ func rulesC01(c *Ctx) {
 		c.Check(g.Dominates(uv, wv), "Call:register-before-write", call, g.Node(wv), "the registration closure dominates the write (a response can only arrive for a registered call)")
 		isRetire := func(v int) bool {
 			n := g.Node(v)
-			return n != nil && (call.ContainsCall(n, retireObj) || call.ContainsCall(n, RetireObj))
+			return n != nil && (call.ContainsCall(n, retireObj) || call.ContainsCall(n, RetireObj) || c.c01CallsRetiringClosure(call, n))
 		}
 		okp, path := g.MustPass(g.Entry, g.Exits, func(v int) bool { return v == wv || isRetire(v) })
 		c.paths++
@@ -989,7 +1007,233 @@ func responseArmRule(c *Ctx) {
 				}
 			}
 		}
+		if !delOK && acVar != nil && c.c01GuardRemoves(l, guards, acVar) && c.c01KeyedByOwnID() {
+			// the entry is removed by a predicate of the state (true only after delete(outgoingCalls, ac.id)); calls are
+			// registered under their own id and nowhere else, so the key removed is the key the call was found under
+			delOK = true
+		}
 		c.Check(delOK, "response-arm:delete-before-retire", l, rc, "delete(outgoingCalls, sameKey) strictly dominates retire")
 	}
 	c.Pin("response arm", n, 1)
+}
+
+// ---- C01: completion through helpers that are not expanded in place (a closure bound to a local, a predicate inside a
+// compound condition) ----
+
+type c01Site struct {
+	In   *Func
+	Call *ast.CallExpr
+}
+
+// c01BoundClosureSites: l is a function literal bound to a local variable that is written once, whose address is never
+// taken and that occurs otherwise only as the callee of plain calls (not go/defer, never passed on). It returns those
+// calls, each with the function (root or literal) in whose body it stands.
+func (c *Ctx) c01BoundClosureSites(l *Func) ([]c01Site, bool) {
+	if l.Lit == nil || l.Parent == nil {
+		return nil, false
+	}
+	root := l.Root()
+	var v types.Object
+	nW := 0
+	for _, w := range Writes(root.Body, true) {
+		if w.RHS != nil && ast.Unparen(w.RHS) == ast.Expr(l.Lit) {
+			if id, ok := ast.Unparen(w.LHS).(*ast.Ident); ok {
+				v = root.ObjOf(id)
+			}
+		}
+	}
+	if v == nil || root.addressTaken(v) {
+		return nil, false
+	}
+	for _, w := range Writes(root.Body, true) {
+		if id, ok := ast.Unparen(w.LHS).(*ast.Ident); ok && root.ObjOf(id) == v {
+			if _, isVS := w.Stmt.(*ast.ValueSpec); isVS && w.RHS == nil {
+				continue
+			}
+			nW++
+		}
+	}
+	if nW != 1 {
+		return nil, false
+	}
+	var sites []c01Site
+	ok := true
+	ast.Inspect(root.Body, func(n ast.Node) bool {
+		id, isID := n.(*ast.Ident)
+		if !isID || root.Info().Uses[id] != v {
+			return true
+		}
+		ce, isCall := root.ParentOf(id).(*ast.CallExpr)
+		if !isCall || ast.Unparen(ce.Fun) != ast.Expr(id) {
+			ok = false
+			return true
+		}
+		switch root.ParentOf(ce).(type) {
+		case *ast.GoStmt, *ast.DeferStmt:
+			ok = false
+			return true
+		}
+		in := root
+		for _, x := range root.AllLits() {
+			if encloses(x.Lit, ce) {
+				in = x // pre-order: the last one that encloses is the innermost
+			}
+		}
+		sites = append(sites, c01Site{in, ce})
+		return true
+	})
+	return sites, ok && len(sites) > 0
+}
+
+// c01BoundToCallLocal: l is such a closure of Connection.Call, and every call of it stands in Call's own body.
+func (c *Ctx) c01BoundToCallLocal(l *Func) bool {
+	root := l.Root()
+	if root.Obj == nil || root.Obj != c.FnObj(pJ, "Connection", "Call") || l.Parent != root {
+		return false
+	}
+	sites, ok := c.c01BoundClosureSites(l)
+	if !ok {
+		return false
+	}
+	for _, s := range sites {
+		if s.In != root {
+			return false
+		}
+	}
+	return true
+}
+
+// c01AlwaysRetires: every path through the literal passes (*AsyncCall).retire.
+func (c *Ctx) c01AlwaysRetires(l *Func) bool {
+	retireObj := c.FnObj(pJ, "AsyncCall", "retire")
+	if len(l.CallsIn(l.Body, retireObj, false)) == 0 {
+		return false
+	}
+	lg := l.Graph()
+	isR := func(v int) bool { n := lg.Node(v); return n != nil && l.ContainsCall(n, retireObj) }
+	ok, _ := lg.MustPassIncl(lg.Entry, lg.Exits, isR)
+	return ok
+}
+
+// c01CallsRetiringClosure: node n of f calls a local that stands for a literal every path of which retires.
+func (c *Ctx) c01CallsRetiringClosure(f *Func, n ast.Node) bool {
+	for _, cl := range f.AllCalls(n, false) {
+		id, ok := ast.Unparen(cl.Fun).(*ast.Ident)
+		if !ok {
+			continue
+		}
+		if _, isVar := f.ObjOf(id).(*types.Var); !isVar {
+			continue
+		}
+		if fl, ok := ast.Unparen(f.valueOf(id)).(*ast.FuncLit); ok {
+			if l := f.Root().LitFor(fl); l != nil && c.c01AlwaysRetires(l) {
+				return true
+			}
+		}
+	}
+	return false
+}
+
+// c01RemovingPredicate: fn is a function of internal/jsonrpc2 with one boolean result and a *AsyncCall parameter p (never
+// reassigned) that answers true only behind delete(outgoingCalls, p.id), and answers with the constants true/false only.
+// It returns the index of p among the call's arguments.
+func (c *Ctx) c01RemovingPredicate(fn *types.Func) (int, bool) {
+	if fn == nil || fn.Pkg() == nil || relOf(fn.Pkg().Path()) != pJ {
+		return 0, false
+	}
+	sig := fn.Type().(*types.Signature)
+	if sig.Results().Len() != 1 || !types.Identical(sig.Results().At(0).Type().Underlying(), types.Typ[types.Bool]) {
+		return 0, false
+	}
+	F := c.P.FuncOf(fn)
+	if F == nil || F.Body == nil {
+		return 0, false
+	}
+	outgoing := c.Field(pJ, "inFlightState", "outgoingCalls")
+	idF := c.Field(pJ, "AsyncCall", "id")
+	g := F.Graph()
+	for i, p := range F.NonRecvParams() {
+		if n := namedOf(p.Type()); n == nil || n.Obj().Name() != "AsyncCall" || n.Obj().Pkg() != fn.Pkg() {
+			continue
+		}
+		if len(F.writesToVar(F.Body, p, true)) > 0 || F.addressTaken(p) {
+			continue
+		}
+		dels := g.Vertices(func(n ast.Node) bool {
+			for _, dc := range F.AllCalls(n, false) {
+				if F.BuiltinName(dc) == "delete" && len(dc.Args) == 2 && F.IsField(dc.Args[0], outgoing) && F.IsField(dc.Args[1], idF) {
+					if sel, ok := ast.Unparen(dc.Args[1]).(*ast.SelectorExpr); ok && F.ObjOf(sel.X) == types.Object(p) {
+						return true
+					}
+				}
+			}
+			return false
+		})
+		nTrue, ok := 0, true
+		for _, r := range F.Returns() {
+			if len(r.Results) != 1 {
+				ok = false
+				break
+			}
+			val, isConst := F.ConstBool(r.Results[0])
+			if !isConst {
+				ok = false
+				break
+			}
+			if !val {
+				continue
+			}
+			nTrue++
+			rv := g.VertexOf(r)
+			dom := false
+			for _, dv := range dels {
+				if dv != rv && g.Dominates(dv, rv) {
+					dom = true
+				}
+			}
+			if !dom {
+				ok = false
+			}
+		}
+		if ok && nTrue > 0 {
+			return i, true
+		}
+	}
+	return 0, false
+}
+
+// c01GuardRemoves: among the conditions known to hold, one is a removing predicate applied to the variable ac.
+func (c *Ctx) c01GuardRemoves(f *Func, guards []Atom, ac types.Object) bool {
+	if ac == nil {
+		return false
+	}
+	return hasAtom(guards, func(a Atom) bool {
+		ce, ok := ast.Unparen(a.E).(*ast.CallExpr)
+		if !ok || !a.Val {
+			return false
+		}
+		i, isP := c.c01RemovingPredicate(f.Callee(ce))
+		return isP && i < len(ce.Args) && f.ObjOf(ce.Args[i]) == ac
+	})
+}
+
+// c01KeyedByOwnID: every store into the call table is outgoingCalls[x.id] = x: a call is found under its own id only.
+func (c *Ctx) c01KeyedByOwnID() bool {
+	outgoing := c.Field(pJ, "inFlightState", "outgoingCalls")
+	idF := c.Field(pJ, "AsyncCall", "id")
+	n, ok := 0, true
+	for _, f := range c.funcsWithLits(pJ) {
+		for _, w := range Writes(f.Body, false) {
+			m, k, isIx := indexOf(w.LHS)
+			if !isIx || !f.IsField(m, outgoing) {
+				continue
+			}
+			n++
+			sel, isSel := ast.Unparen(k).(*ast.SelectorExpr)
+			if !isSel || !f.IsField(k, idF) || w.RHS == nil || f.ObjOf(sel.X) == nil || f.ObjOf(sel.X) != f.ObjOf(w.RHS) {
+				ok = false
+			}
+		}
+	}
+	return ok && n > 0
 }
